@@ -113,7 +113,7 @@ func c10ExecRun(t *rapid.T) {
 	var progs []*Program
 	keys := []string{"n1", "s1", "bw", "label", "pa", "zz", "len", "xs"}
 	for i := 0; i < nprog; i++ {
-		p := genProgram(t, genOpts{ctxProbes: true, mapRegions: false, maxPieces: 5, probes: false})
+		p := genProgram(t, genOpts{tolerant: true, toleratedOnly: true, lateLet: true, ctxProbes: true, mapRegions: false, maxPieces: 5, probes: false})
 		progs = append(progs, p)
 		for _, n := range p.Names {
 			if len(keys) < 40 {
